@@ -67,7 +67,7 @@ Proof.
   assert (R : rows3 geom = Ok (Z.of_nat n)).
   { unfold rows3. rewrite Lg. replace (3 * n)%nat with (n * 3)%nat by lia.
     rewrite Nat.mod_mul, Nat.div_mul by lia. reflexivity. }
-  destruct (is_nil seps && steps1 f0).
+  destruct (is_nil seps && steps1 f0 && starts0 f0).
   - rewrite R. cbn [obind]. rewrite Z.eqb_refl. reflexivity.
   - rewrite Hcat, Nat2Z.id, list_eqb_refl_Z. cbn [negb]. rewrite R. cbn [obind]. rewrite Z.eqb_refl. cbn [negb].
     rewrite L1, L2, L3, L4, L5, L6. reflexivity.
